@@ -2,6 +2,7 @@
 import json
 import os
 import random
+import re
 from vlib.core import *
 
 SPEC = os.path.join(VERIF, "specs", "RevTree")
@@ -16,28 +17,15 @@ def run(ctx):
     q = ctx.quick()
     rnd = random.Random(ctx.seed)
     # 1. the design: one replica, every action, both levels and modes; then two replicas fed the same inputs
-    model_check(ctx, SPEC, "MC_RevTree", "MC_RevTree.cfg" if q else "MC_RevTree_thorough.cfg", timeout=3000)
-    model_check(ctx, SPEC, "MC_RevTree", "MC_RevTree_OI.cfg", timeout=3000)
+    if not os.environ.get("VERIF_C04_SKIP_MC"):          # development knob
+        model_check(ctx, SPEC, "MC_RevTree", "MC_RevTree.cfg" if q else "MC_RevTree_thorough.cfg", timeout=3000)
+        model_check(ctx, SPEC, "MC_RevTree", "MC_RevTree_OI.cfg", timeout=3000)
     if not q:
         model_check(ctx, SPEC, "MC_RevTree", "MC_RevTree_OI_thorough.cfg", timeout=3000)
     ctx.cov["exhaustive"] = True
     # 2. behaviours: transition covers of small instances (every transition out of every distinct reachable state),
     #    every (input sequence, permutation) pair for two replicas, plus seeded simulations of larger instances
-    suf = ".cfg" if q else "_thorough.cfg"
-    cap = (1500, 1200, 600) if q else (12000, 10000, 5000)
-    parts = []
-    for name, n in zip(("tree", "db", "oi"), cap):
-        allb = drop_prefixes(behaviours(ctx, SPEC, "MC_RevTree", "Beh_RevTree_%s%s" % (name, suf), timeout=3000))
-        if not q and name != "oi":   # the thorough tier also replays the whole small cover
-            allb += drop_prefixes(behaviours(ctx, SPEC, "MC_RevTree", "Beh_RevTree_%s.cfg" % name, timeout=3000))
-        parts.append((name, len(allb), sample(rnd, allb, n)))
-    # (TLC's simulator evaluates the exporting invariant on every successor of the last step: sample them)
-    sims = behaviours(ctx, SPEC, "MC_RevTree", "Sim_RevTree.cfg", num=120 if q else 1500, depth=8, timeout=1800)
-    parts.append(("sim", len(sims), sample(rnd, sims, 300 if q else 6000)))
-    sims = behaviours(ctx, SPEC, "MC_RevTree", "Sim_RevTree_oi.cfg", num=200 if q else 3000, depth=8, timeout=1800)
-    parts.append(("simoi", len(sims), sample(rnd, sims, 150 if q else 3000)))
-    behs = [b for _, _, bs in parts for b in bs]
-    ctx.notes.append("behaviours replayed: " + ", ".join("%s %d%s" % (nm, len(bs), (" of %d" % tot) if tot else "") for nm, tot, bs in parts))
+    behs = generate(ctx, q, rnd)
     replay_and_validate(ctx, behs)
     ctx.cov["rule"] = ("behaviours = transition covers (every transition out of every distinct reachable state, seeded sample in the quick tier) of the "
                        "tree-level model (TryAdd/PutHistory/Prune, gens 1..2(3) x 2 digests, two generation-value maps) and the database-level model "
@@ -49,6 +37,36 @@ def run(ctx):
                         "and for replicas that did not prune; interior deleted flags are not compared (only a head revision carries its flag)",
                         "a stored tombstone is served without the properties it was written with: WinningBody is required for live winners",
                         "RepairCycles (legacy data repair) is outside the property"]
+
+
+def generate(ctx, q, rnd):
+    cache = os.environ.get("VERIF_C04_BEH_CACHE")            # development knob: reuse exported behaviours
+    if cache and os.path.exists(cache):
+        behs = json.load(open(cache))
+        ctx.notes.append("behaviours replayed: %d from cache %s" % (len(behs), cache))
+        return behs
+    suf = ".cfg" if q else "_thorough.cfg"
+    cap = (1500, 1200, 600) if q else (12000, 10000, 5000)
+    simcap = (300, 150) if q else (6000, 3000)
+    if os.environ.get("VERIF_C04_CAPS"):     # development knob: "tree,db,oi,sim,simoi"
+        v = [int(x) for x in os.environ["VERIF_C04_CAPS"].split(",")]
+        cap, simcap = tuple(v[:3]), tuple(v[3:5])
+    parts = []
+    for name, n in zip(("tree", "db", "oi"), cap):
+        allb = drop_prefixes(behaviours(ctx, SPEC, "MC_RevTree", "Beh_RevTree_%s%s" % (name, suf), timeout=3000))
+        if not q and name != "oi":   # the thorough tier also replays the whole small cover
+            allb += drop_prefixes(behaviours(ctx, SPEC, "MC_RevTree", "Beh_RevTree_%s.cfg" % name, timeout=3000))
+        parts.append((name, len(allb), sample(rnd, allb, n)))
+    # (TLC's simulator evaluates the exporting invariant on every successor of the last step: sample them)
+    sims = behaviours(ctx, SPEC, "MC_RevTree", "Sim_RevTree.cfg", num=200 if q else 2000, depth=8, timeout=1800)
+    parts.append(("sim", len(sims), sample(rnd, sims, simcap[0])))
+    sims = behaviours(ctx, SPEC, "MC_RevTree", "Sim_RevTree_oi.cfg", num=400 if q else 4000, depth=8, timeout=1800)
+    parts.append(("simoi", len(sims), sample(rnd, sims, simcap[1])))
+    behs = [b for _, _, bs in parts for b in bs]
+    ctx.notes.append("behaviours replayed: " + ", ".join("%s %d%s" % (nm, len(bs), (" of %d" % tot) if tot else "") for nm, tot, bs in parts))
+    if cache:
+        write_json(cache, behs)
+    return behs
 
 
 def drop_prefixes(behs):
@@ -95,94 +113,135 @@ def replay_and_validate(ctx, behs):
     rows = read_ndjson(tr)
     if not rows or rows[-1].get("a") != "End":
         raise Inconclusive("C04 trace is incomplete (no End line)")
-    groups = split(rows)
+    groups = [g for _, g in split(rows)]
     if len(groups) != len(behs):
         raise Inconclusive("C04 trace has %d behaviours, %d were sent" % (len(groups), len(behs)))
     ctx.cov["evaluations"] += len(behs)
     measure(ctx, groups, rows[-1])
-    mid = groups[len(groups) // 2][1]
+    mid = groups[len(groups) // 2]
     ctx.sample({"behaviour": behs[mid[0]["beh"]], "real_trace_head": mid[1:3]})
 
-    # pass P - the property on the recorded real state.  TLC stops at the first violation: the violating behaviour is
-    # reported and set aside, the rest is validated again (bounded number of rounds).
+    # pass P - the property on the recorded real state.  Every recorded behaviour is a TLC behaviour of its own (initial
+    # states = Reset lines) and TLC runs with -continue: one run lists every violating behaviour.
     live = list(groups)
     pcfg = "Trace_RevTree_P.cfg"
     clean = False
-    for rnd_no in range(6):
-        path = os.path.join(ctx.scratch, "c04-p%d.ndjson" % rnd_no)
-        write_trace(path, live)
-        vp = validate(ctx, SPEC, "Trace_RevTree", pcfg, path, timeout=3000, tag="P%d" % rnd_no)
-        if not vp.inv:
-            if not vp.accepted:
-                raise Inconclusive("pass P stopped at line %s of %s (trace shape not accepted)\n%s" % (vp.line, vp.total, vp.out[-1500:]))
+    reported = 0
+    for rnd_no in range(4):
+        res = validate_all(ctx, pcfg, live, "P%d" % rnd_no)
+        if not res["viol"]:
+            if res["stalled"]:
+                g = res["stalled"][0]
+                raise Inconclusive("pass P could not consume behaviour %d (trace shape not accepted): %s" % (g[0]["beh"], json.dumps(g[:3])[:1200]))
             clean = True
             break
-        gi = group_at(live, vp.line)
-        grp = live[gi][1]
-        beh = behs[grp[0]["beh"]]
-        if vp.inv == "FlagsAgree" and pcfg.endswith("_P.cfg") and is_stale_branched(ctx, grp):
+        bad = res["viol"]                      # group id -> (invariant, line, state text)
+        stale = set()
+        cand = [gid for gid, v in bad.items() if v[0] == "FlagsAgree"] if pcfg.endswith("_P.cfg") else []
+        if cand:
+            # TLC decides the class: these behaviours satisfy the property modulo the named deviation (FlagsAgreeModuloAgeing)
+            sub = [g for g in live if id(g) in set(cand)]
+            resm = validate_all(ctx, "Trace_RevTree_Pm.cfg", sub, "Pm%d" % rnd_no)
+            notok = set(resm["viol"]) | set(id(g) for g in resm["stalled"])
+            stale = set(cand) - notok
+        if stale:
+            first = [g for g in live if id(g) in stale][0]
             report_violation(ctx, STALE_KEY,
-                             "stored Branched flag disagrees with the stored leaves after a write that pruned the last other (tombstoned) branch "
-                             "(flags are computed before pruneRevisions in documentUpdateFunc); first seen in behaviour %d" % grp[0]["beh"],
-                             {"behaviour": beh, "invariant": vp.inv, "real_trace": grp})
+                             "stored Branched flag disagrees with the stored leaves after a write whose pruning removed the last other (tombstoned) "
+                             "branch - documentUpdateFunc computes the flags before pruneRevisions (%d behaviours of this run, first: %d)"
+                             % (len(stale), first[0]["beh"]),
+                             {"behaviour": behs[first[0]["beh"]], "invariant": "FlagsAgree", "real_trace": first, "instances": len(stale)})
             pcfg = "Trace_RevTree_Pm.cfg"     # the rest of the run is validated modulo this TLC-classified deviation
-            continue
-        key = "%s:%s" % (vp.inv, json.dumps(beh, sort_keys=True))
-        report_violation(ctx, key, "real revision tree breaks %s at trace line %s (behaviour %d, level %s)" % (vp.inv, vp.line, grp[0]["beh"], grp[0]["lvl"]),
-                         {"behaviour": beh, "invariant": vp.inv, "real_trace": grp, "state": (vp.state or {}).get("_txt")})
-        del live[gi]
+        for g in list(live):
+            if id(g) in bad and id(g) not in stale:
+                inv, line, txt = bad[id(g)]
+                beh = behs[g[0]["beh"]]
+                if reported < 5:
+                    report_violation(ctx, "%s:%s" % (inv, json.dumps(beh, sort_keys=True)),
+                                     "real revision tree breaks %s in behaviour %d (level %s) at its step %s" % (inv, g[0]["beh"], g[0]["lvl"], line),
+                                     {"behaviour": beh, "invariant": inv, "real_trace": g, "state": txt})
+                reported += 1
+                live.remove(g)
+    if reported > 5:
+        ctx.notes.append("pass P: %d violating behaviours, 5 reported" % reported)
     if not clean:
-        ctx.notes.append("pass P: more violating behaviours than rounds; %d behaviours left unvalidated" % len(live))
+        ctx.notes.append("pass P: still violating after 4 rounds; %d behaviours left unvalidated" % len(live))
         return
     # pass C - every recorded step is an instance of the spec's action from the previous real state
-    path = os.path.join(ctx.scratch, "c04-c.ndjson")
-    write_trace(path, live)
-    vc = validate(ctx, SPEC, "Trace_RevTree", "Trace_RevTree_C.cfg", path, timeout=3000, tag="C")
-    if vc.inv or not vc.accepted:
-        ctx.cov["nonconformance"] += 1
-        gi = group_at(live, vc.line) if vc.line else None
-        grp = live[gi][1] if gi is not None else None
-        off = (vc.line - live_start(live, gi)) if grp else None
-        ctx.notes.append("pass C rejected at line %s (%s): %s" % (vc.line, vc.inv or "no matching action",
-                                                                   json.dumps(grp[off] if grp and off is not None and off < len(grp) else None)[:600]))
-    else:
-        ctx.cov["traces_validated_against_impl"] += len(live)
+    try:
+        conformance(ctx, live)
+    except Inconclusive as ex:
+        if not ctx.violations:
+            raise
+        ctx.notes.append("pass C could not be completed after violations were recorded: %s" % str(ex)[:300])
 
 
-def write_trace(path, groups):
+def conformance(ctx, live):
+    res = validate_all(ctx, "Trace_RevTree_C.cfg", live, "C")
+    badc = dict(res["viol"])
+    for g in res["stalled"]:
+        badc.setdefault(id(g), ("no matching action", None, None))
+    if res["viol"] and not res["stall_known"]:
+        # TLC skipped the end-of-run report: validate the remaining behaviours once more to see which were not consumed
+        rest = [g for g in live if id(g) not in badc]
+        res2 = validate_all(ctx, "Trace_RevTree_C.cfg", rest, "C2")
+        for gid, v in res2["viol"].items():
+            badc.setdefault(gid, v)
+        for g in res2["stalled"]:
+            badc.setdefault(id(g), ("no matching action", None, None))
+    if badc:
+        ctx.cov["nonconformance"] += len(badc)
+        for g in [g for g in live if id(g) in badc][:3]:
+            ctx.notes.append("pass C rejected behaviour %d (%s, step %s): %s" % (g[0]["beh"], badc[id(g)][0], badc[id(g)][1], json.dumps(g)[:700]))
+    ctx.cov["traces_validated_against_impl"] += len(live) - len(badc)
+
+
+def validate_all(ctx, cfg, groups, tag):
+    """validate the recorded behaviours `groups` (lists of rows, first row = Reset) with Trace_RevTree/<cfg>.
+    returns viol: id(group) -> (invariant, step number within the behaviour, state text) for every behaviour with a violated
+    invariant, stalled: groups that were not consumed to their end, stall_known: whether TLC printed the end-of-run report."""
+    path = os.path.join(ctx.scratch, "c04-%s.ndjson" % tag)
+    starts = {}
+    n = 0
     with open(path, "w") as f:
-        for _, g in groups:
+        for g in groups:
+            starts[n + 1] = g
             for r in g:
                 f.write(json.dumps(r, separators=(",", ":"), sort_keys=True) + "\n")
+                n += 1
         f.write('{"a":"End","skipped":0}\n')
-
-
-def live_start(groups, gi):
-    return 1 + sum(len(g) for _, g in groups[:gi])
-
-
-def group_at(groups, line):
-    """index of the behaviour that contains (1-based) line of the trace written by write_trace"""
-    n = 0
-    for gi, (_, g) in enumerate(groups):
-        n += len(g)
-        if (line or 1) <= n:
-            return gi
-    return len(groups) - 1
-
-
-def is_stale_branched(ctx, grp):
-    """TLC decides: the behaviour passes the property modulo the named deviation (FlagsAgreeModuloAgeing)"""
-    path = os.path.join(ctx.scratch, "c04-one.ndjson")
-    write_trace(path, [(1, grp)])
-    v = validate(ctx, SPEC, "Trace_RevTree", "Trace_RevTree_Pm.cfg", path, timeout=600, tag="Pm1")
-    return (not v.inv) and v.accepted
+    r = tlc(ctx, SPEC, "Trace_RevTree", cfg, workers=1, env={"VERIF_TRACE": path}, timeout=3000, tag=tag, allow_violation=True,
+            extra=["-continue"])
+    m = re.search(r"(?m)^Error: (?!Invariant \S+ is violated|The behavior up to this point)(.*)$", r.out)
+    if m or (r.rc != 0 and not r.inv_violated):
+        raise Inconclusive("TLC error validating with %s: %s\n%s" % (cfg, m.group(1) if m else r.error_text, r.out[-1500:]))
+    viol = {}
+    chunks = re.split(r"(?m)^Error: Invariant (\S+) is violated\.?.*$", r.out)
+    for k in range(1, len(chunks) - 1, 2):
+        inv, body = chunks[k], chunks[k + 1]
+        ls = re.findall(r"(?m)^/\\ l = (\d+)", body)
+        ss = re.findall(r"(?m)^/\\ s0 = (\d+)", body)
+        if not ls or not ss:
+            raise Inconclusive("cannot locate a violation of %s reported by TLC (%s)" % (inv, cfg))
+        g = starts.get(int(ss[-1]))
+        if g is None:
+            raise Inconclusive("TLC reported a violation in an unknown behaviour (s0=%s)" % ss[-1])
+        last = body.rfind("State ")
+        viol.setdefault(id(g), (inv, int(ls[-1]) - int(ss[-1]) - 1, body[last:last + 4000] if last >= 0 else None))
+    stalled, known = [], False
+    m = re.search(r'<<\s*"STALL",\s*\{([^}]*)\}\s*>>', r.out)     # TLC wraps a long set over several lines
+    if m:
+        known = True
+        stalled = [starts[int(x)] for x in re.findall(r"\d+", m.group(1)) if int(x) in starts]
+    if not known and not viol:
+        raise Inconclusive("TLC did not report which behaviours were consumed (%s)\n%s" % (cfg, r.out[-1500:]))
+    return {"viol": viol, "stalled": [g for g in stalled if id(g) not in viol], "stall_known": known}
 
 
 def measure(ctx, groups, end):
     c = {"two_leaves": 0, "conflict": 0, "tombstone_winner": 0, "winner_not_newest": 0, "prune_removed": 0, "rejected_call": 0,
          "two_replicas": 0, "two_replicas_same_accepted": 0, "db_level": 0, "tree_level": 0, "cut_short": end.get("skipped", 0)}
-    for _, g in groups:
+    for g in groups:
         hdr, steps = g[0], [r for r in g[1:] if r["a"] in STEP_ACTS]
         c["db_level" if hdr["lvl"] == "db" else "tree_level"] += 1
         f = lambda p: any(p(r) for r in steps)
